@@ -21,6 +21,12 @@
   wires — `group_one_qubit_gates` included: it replaces every maximal run of adjacent one-qubit gates of a wire by one
   wrapper holding the run's classes in the order the code collects them, and changes nothing else
   (`group_is_fuse_of_runs_on_wires`).
+  Added by the C18 deepening: `validate()` passes on every such circuit (§3); a topological order restricted to a register IS the
+  wire (§6); `GroupHyp` — the hypothesis of the fuse refinement — is an invariant of the whole edit API for graphiq-constructed
+  operation arguments, so the refinement holds after any history (§9), also with the classical threading of every operation
+  (`group_is_fuse_of_runs_on_wired_wires`), as do flatMap-unwrap / filter for `unwrap_nodes` / `remove_identity`, giving a closed-form
+  interpreter for rewrite histories (`rewrite_history_on_wired_wires`); `find_incompatible_edges` is characterised exactly, complete
+  for cycles and conservative; insertions on input / output edges and on reported-compatible pairs are well-formed calls (§9–§10).
 -/
 import GraphiqModel.Proofs.PrepOrder
 import GraphiqModel.Proofs.Topo
@@ -31,6 +37,7 @@ import GraphiqModel.Proofs.MetricsHist
 import GraphiqModel.Proofs.MetricsHistFuse
 import GraphiqModel.Proofs.MetricsHistCheck
 import GraphiqModel.Proofs.MetricsHistWires
+import GraphiqModel.Proofs.MetricsHistValidate
 namespace Graphiq.C12
 open Graphiq Graphiq.Dag Graphiq.Metrics Relation
 
@@ -168,6 +175,17 @@ theorem dagInv_indexes {c : Dag} (h : DagInv c) :
 theorem dagInv_register_counts {c : Dag} (h : DagInv c) (t : RegType) :
     (c.nodeIds.filter (fun n => match n with | .inp r => r.ty = t | _ => false)).length = c.regs t := by
   obtain ⟨P, g⟩ := h; exact g.inv.input_count t
+
+/-- **the code's own structural check passes**: `CircuitDAG.validate()` — acyclic (the model's Kahn-style `isAcyclicB`), every node
+    without in-edges holds an `Input`, every node without out-edges an `Output` — returns without raising on every circuit
+    satisfying DagInv -/
+theorem validate_passes {c : Dag} (h : DagInv c) : c.validate = none := by
+  obtain ⟨P, g⟩ := h; exact validate_of_good g
+
+/-- … hence after every history of well-formed edits from a fresh circuit -/
+theorem validate_passes_after_every_history (ne np nc : Nat) (es : List Edit) (hok : HistOK (Dag.init ne np nc) es) :
+    (run (Dag.init ne np nc) es).validate = none :=
+  validate_passes (history_from_init ne np nc es hok)
 
 /-! ## 4. inserting on a pair the circuit reports compatible never creates a cycle -/
 
